@@ -43,7 +43,7 @@ def run(ctx):
                traces_validated_against_impl=len(lines), evaluations=len(lines), distinct_nontrivial=len(keys),
                rule="R1: spec/WriteImpl.tla, 3 writers x 2 messages x 2 transport writes per message, every interleaving with stalls; R2: every sequence of (bytes accepted in {0,10,43}, none|temporary|permanent) outcomes within "
                     "every retry budget (spec/WriteGen.tla, exhaustive), applied to a bare io.Writer under Message.WriteToWithRetry and to the net.Conn under a diam.Conn; plus seeded concurrency schedules (2-3 writer goroutines, sizes on "
-                    "both sides of the 1 KiB serialisation pool and the 4 KiB buffer, the k-th transport write stalled while the others start). non-trivial = a temporary error or overlapping writers; distinct by scenario Since extended: schedules in which every transport write is slow, sizes up to 20000; a server with WriteTimeout as third retry target (errors are deadline expiries, the write is made by a handler); Serialize(A) / WriteTo(B) / Conn.Write(A); writers on the dialled Conn and on a handler's Conn of the same connection; two answers in quick succession under WriteTimeout over a transport that honours write deadlines.",
+                    "both sides of the 1 KiB serialisation pool and the 4 KiB buffer, the k-th transport write stalled while the others start). non-trivial = a temporary error or overlapping writers; distinct by scenario Since extended: schedules in which every transport write is slow, sizes up to 20000; a server with WriteTimeout as third retry target (errors are deadline expiries, the write is made by a handler); Serialize(A) / WriteTo(B) / Conn.Write(A); writers on the dialled Conn and on a handler's Conn of the same connection; two answers in quick succession under WriteTimeout over a transport that honours write deadlines; answers carrying stream 0 among locally created messages.",
                samples=[l for l in lines[3:len(lines):max(1, len(lines) // 3)]][:3], exhaustive=False, rejected=len(bad),
                known_finding_hits={k: n for k, (n, _) in v.hits.items()})
     rc = v.finish()
